@@ -345,13 +345,14 @@ def run(chk, replay=None):
             da = abs(complex(float(a[0]), float(a[1])) - complex(float(b[0]), float(b[1])))
             return da <= 1e-7 * max(1.0, abs(complex(float(b[0]), float(b[1]))))
         bad = None
-        if close(VocT, Voc0) and close(ZT, Z0) and close(IscN, Isc0):
-            if (VocT, ZT, IscN) != (Voc0, Z0, Isc0):
-                chk.count('oneport', 'equal-up-to-float-noise')
-        elif not close(VocT, Voc0) or not close(ZT, Z0):
+        yz = (YN[0] * Z0[0] - YN[1] * Z0[1], YN[0] * Z0[1] + YN[1] * Z0[0])
+        y_ok = Z0 == (0, 0) or close(yz, (Fraction(1), Fraction(0)))
+        if not close(VocT, Voc0) or not close(ZT, Z0):
             bad = 'thevenin() model (Voc %s, Z %s) differs from the network (Voc %s, Z %s)' % (VocT, ZT, Voc0, Z0)
-        elif not close(IscN, Isc0) or (Z0 != (0, 0) and not close((YN[0] * Z0[0] - YN[1] * Z0[1], YN[0] * Z0[1] + YN[1] * Z0[0]), (Fraction(1), Fraction(0)))):
-            bad = 'norton() model (Isc %s, Y %s) differs from the network (Isc %s, Z %s)' % (IscN, YN, Isc0, Z0)
+        elif not close(IscN, Isc0) or not y_ok:
+            bad = 'norton() model (Isc %s, Y %s) differs from the network (Isc %s, Z %s; Y Z = %s)' % (IscN, YN, Isc0, Z0, yz)
+        elif (VocT, ZT, IscN) != (Voc0, Z0, Isc0):
+            chk.count('oneport', 'equal-up-to-float-noise')
         if bad:
             n_cex += 1
             chk.counterexample({'kind': 'oneport-model'},
